@@ -1,6 +1,7 @@
 package props
 
 import (
+	"fmt"
 	"strings"
 
 	"golang.org/x/tools/go/ssa"
@@ -13,7 +14,7 @@ func init() {
 		ID: "C04",
 		Explanation: "Structural necessary conditions of 'revocation is final and cascades', on every CFG path of the token store's revocation code: " +
 			"(1) TokenStore.revokeInternal persists the revocation marker (NumUses = tokenRevocationPending, store succeeded, or the entry already carries it) before any teardown step, and deletes the primary entry last, in the deferred closure, only when no step failed; " +
-			"(2) a nil return after the entry was found crosses the success edges of cubbyhole destruction, lease revocation (RevokeByToken), parent-index and accessor-index deletion (when present) and — unless called from the tree walk — orphans every child; RevokeByToken revokes every lease found and the token's own lease; " +
+			"(2) a nil return after the entry was found crosses the success edges of cubbyhole destruction, lease revocation (RevokeByToken), parent-index and accessor-index deletion (when present) and — unless called from the tree walk — orphans every child; RevokeByToken revokes every lease found and the token's own lease, tests the error of every lease revocation and reaches no nil-capable return from its failure edge; " +
 			"(3) the pending-deletion map is keyed by the salted ID at every operation and every failing exit resets it so that a retry is not short-circuited; " +
 			"(4) storeCommon writes the parent index before the child entry and only after the parent was found; " +
 			"(6) API revocations go through the token's lease (revokeCommon / revoke-accessor / lease expiry → revokeTree), and only tabled functions call revokeInternal/revokeTreeInternal; " +
@@ -304,18 +305,23 @@ func runC04(c *eng.Ctx, thorough bool) {
 		// the loop over the leases: leaving it needs the loop-done edge; a failing lazyRevokeInternal returns its error
 		for _, lz := range eng.Calls(f, `vault\.\(\*ExpirationManager\)\.lazyRevokeInternal$`) {
 			c.Clause("R4", "C04.2")
+			// RevokeByToken defers, so its results are spilled to a local: the
+			// nil-capable returns are those of SuccessReturns (which resolves
+			// the spill through the reaching stores), not the returns whose
+			// operand is the literal nil.
 			fe := eng.CallFailEdges(lz)
-			var nilRets []ssa.Instruction
-			for _, r := range succ {
-				ret := r.(*ssa.Return)
-				if eng.IsNilConst(ret.Results[0]) {
-					nilRets = append(nilRets, r)
+			site := "on{lazyRevokeInternal failed} no nil return"
+			switch {
+			case len(fe) == 0:
+				c.Violation(f, site, lz.Pos(), "the error of lazyRevokeInternal is never tested: a failed lease revocation cannot stop RevokeByToken from reporting success", nil)
+			case len(succ) == 0:
+				c.Undecided(f, site, lz.Pos(), "no nil-capable return found: the rule cannot be evaluated")
+			default:
+				if h := eng.Reach(eng.Query{Fn: f, StartEdges: fe, Target: eng.IsTarget(succ)}); h != nil {
+					c.Violation(f, site, h.Instr.Pos(), "a nil-capable return is reachable from the failure edge of lazyRevokeInternal: a failed lease revocation can be swallowed", h.Witness)
+				} else {
+					c.OK(f, site, lz.Pos(), fmt.Sprintf("none of the %d nil-capable return(s) is reachable from the %d failure edge(s): failure of a lease revocation is returned", len(succ), len(fe)))
 				}
-			}
-			if h := eng.Reach(eng.Query{Fn: f, StartEdges: fe, Target: eng.IsTarget(nilRets)}); h != nil {
-				c.Violation(f, "on{lazyRevokeInternal failed} no nil return", h.Instr.Pos(), "a failed lease revocation can be swallowed", h.Witness)
-			} else {
-				c.OK(f, "on{lazyRevokeInternal failed} no nil return", lz.Pos(), "failure of a lease revocation is returned")
 			}
 			c.Clause("R5", "C04.2")
 			c.Prov(f, "lease revoked", lz, lz.Common().Args[2], `lookupLeasesByToken`)
